@@ -35,6 +35,7 @@ var mains = map[string]func(map[string]string){
 	"c04": c04Main,
 	"c05": c05Main,
 	"c11": c11Main,
+	"c13": c13Main,
 	"c19": c19Main,
 }
 
